@@ -22,7 +22,7 @@ import (
 // symbolic history: robust under deletion of steps (paths are computed when
 // the history is materialised).
 type c14Step struct {
-	Kind string `json:"kind"` // T | edit | decoy | move | chdir | epoch
+	Kind string `json:"kind"` // T | edit | decoy | relink | move | chdir | epoch
 
 	// T
 	Prog     int          `json:"prog,omitempty"`
@@ -37,6 +37,10 @@ type c14Step struct {
 	Rel       string `json:"rel,omitempty"`
 	Version   int    `json:"version,omitempty"`
 	KeepMtime bool   `json:"keep_mtime,omitempty"`
+
+	// relink: the closure file Rel becomes a symbolic link to a copy of its current bytes kept
+	// outside the tree (AsLink), or a regular file again: same bytes at the same relative path
+	AsLink bool `json:"as_link,omitempty"`
 
 	// decoy: rewrite decoy file between calls
 	Decoy int         `json:"decoy,omitempty"`
@@ -214,6 +218,19 @@ func (h *c14Hist) materialise(env *Env) (*simrt.History, []*c14Key) {
 			content[s.Rel] = data
 			out.Steps = append(out.Steps, simrt.Step{Kind: "write", File: path.Join(mount, s.Rel), Data: data, KeepMtime: s.KeepMtime})
 			keys = append(keys, nil)
+		case "relink":
+			data, ok := content[s.Rel]
+			if !ok {
+				continue
+			}
+			if s.AsLink {
+				store := "/store/c14/" + sha(data) + "-" + sha([]byte(s.Rel))
+				out.Steps = append(out.Steps, simrt.Step{Kind: "write", File: store, Data: data}, simrt.Step{Kind: "symlink", File: path.Join(mount, s.Rel), Link: store})
+				keys = append(keys, nil, nil)
+			} else {
+				out.Steps = append(out.Steps, simrt.Step{Kind: "remove", File: path.Join(mount, s.Rel)}, simrt.Step{Kind: "write", File: path.Join(mount, s.Rel), Data: data})
+				keys = append(keys, nil, nil)
+			}
 		case "decoy":
 			if len(h.Decoys) == 0 {
 				continue
@@ -422,6 +439,10 @@ func c14GenOdd(r *Run, rng *gen.Rng, corpus []string, oddPool []string) *c14Hist
 				edited[rel] = rng.Range(1, 4)
 			}
 			h.Steps = append(h.Steps, c14Step{Kind: "edit", Rel: rel, Version: edited[rel], KeepMtime: rng.Chance(40)})
+		case k < 74:
+			// the same bytes at the same place, as a symbolic link or as a regular file again
+			rels := sortedKeys(h.Versions)
+			h.Steps = append(h.Steps, c14Step{Kind: "relink", Rel: rng.Pick(rels), AsLink: rng.Chance(65)})
 		case k < 78:
 			if len(h.Decoys) > 0 {
 				h.Steps = append(h.Steps, c14Step{Kind: "decoy", Decoy: rng.Intn(len(h.Decoys)), Data: decoyData(), Gone: rng.Chance(35)})
@@ -672,6 +693,13 @@ func c14Cold(conc *simrt.History, i int) *simrt.History {
 	for k := 0; k < i; k++ {
 		if conc.Steps[k].Kind != "transpile" {
 			p.Steps = append(p.Steps, conc.Steps[k])
+			continue
+		}
+		// what other processes wrote while the dropped call ran is part of the state
+		for _, e := range conc.Steps[k].Events {
+			if e.Kind == "write" {
+				p.Steps = append(p.Steps, simrt.Step{Kind: "write", File: e.Path, Data: e.Data})
+			}
 		}
 	}
 	st := conc.Steps[i]
@@ -750,6 +778,8 @@ func c14Shape(h *c14Hist) string {
 			sb.WriteString("e")
 		case "decoy":
 			sb.WriteString("d")
+		case "relink":
+			sb.WriteString("l")
 		case "move":
 			sb.WriteString("m")
 		case "chdir":
